@@ -82,7 +82,11 @@ type shape struct {
 	DenyGetPay bool        `json:"denygetpayload"`
 	MPFiles    []mpFile    `json:"mpfiles,omitempty"`
 	MPBoundary string      `json:"mpboundary,omitempty"`
-	Chunked    bool        `json:"chunked,omitempty"` // EnableForceChunkedEncoding (multipart written into a pipe)
+	Chunked    bool        `json:"chunked,omitempty"`  // EnableForceChunkedEncoding (multipart written into a pipe)
+	Path       string      `json:"path,omitempty"`     // path of the URL with {name} placeholders (default /p/a)
+	CPParams   [][2]string `json:"cpparams,omitempty"` // client-level path parameters
+	RPParams   [][2]string `json:"rpparams,omitempty"` // request-level path parameters
+	Ordered    [][2]string `json:"ordered,omitempty"`  // SetOrderedFormData pairs
 }
 
 type mpFile struct {
@@ -107,6 +111,7 @@ type program struct {
 type wireObs struct {
 	Method  string              `json:"method"`
 	URL     string              `json:"url"`
+	Path    string              `json:"path"`
 	Query   string              `json:"query"`
 	Header  map[string][]string `json:"header"`
 	Cookies [][2]string         `json:"cookies"`
@@ -184,7 +189,7 @@ func condEval(c *condSpec, st int, hasErr bool) bool {
 	return false
 }
 
-const baseURL = "http://c10.test/p/a"
+const baseHost = "http://c10.test"
 
 func toValues(l []kvs) url.Values {
 	v := url.Values{}
@@ -234,7 +239,7 @@ func execute(p *program) (o observation) {
 				}
 				return nil, fmt.Errorf("E2! harness stop: %w", context.Canceled)
 			}
-			w := wireObs{Method: q.Method, URL: q.URL.Scheme + "://" + q.URL.Host + q.URL.Path, Query: q.URL.RawQuery,
+			w := wireObs{Method: q.Method, URL: q.URL.Scheme + "://" + q.URL.Host + q.URL.Path, Path: q.URL.Path, Query: q.URL.RawQuery,
 				Header: map[string][]string{}, CLen: q.ContentLength}
 			for k, vs := range q.Header {
 				w.Header[k] = append([]string{}, vs...)
@@ -298,6 +303,9 @@ func execute(p *program) (o observation) {
 	}
 	if sh.DenyGetPay {
 		c.AllowGetMethodPayload = false
+	}
+	for _, e := range sh.CPParams {
+		c.SetCommonPathParam(e[0], e[1])
 	}
 	if sh.MPBoundary != "" {
 		b := sh.MPBoundary
@@ -383,6 +391,12 @@ func execute(p *program) (o observation) {
 	for _, e := range sh.RQuery {
 		r.AddQueryParams(e.K, e.Vs...)
 	}
+	for _, e := range sh.RPParams {
+		r.SetPathParam(e[0], e[1])
+	}
+	for _, e := range sh.Ordered {
+		r.SetOrderedFormData(e[0], e[1])
+	}
 	switch sh.BodyKind {
 	case "bytes":
 		r.SetBodyBytes([]byte(sh.Body))
@@ -435,7 +449,7 @@ func execute(p *program) (o observation) {
 			return nil
 		})
 	}
-	u := baseURL
+	u := baseHost + sh.path()
 	if sh.RawQuery != "" {
 		u += "?" + sh.RawQuery
 	}
@@ -764,6 +778,10 @@ func oracle(r *hk.Run, p *program, o *observation) {
 			}
 		}
 	}
+	// the URL path with the caller's path parameters filled in
+	if o.Wires[0].Path != p.Shape.expectedPath() {
+		fail("url:path-params", "first attempt's URL path is not the template with the path parameters filled in", o.Wires[0].Path, p.Shape.expectedPath())
+	}
 	// complete body on the first attempt
 	if wb, ok := p.expectedBody(); ok && o.Wires[0].Body != wb {
 		fail("body:first-attempt", "first attempt does not carry the complete body", o.Wires[0].Body, wb)
@@ -832,8 +850,26 @@ func (p *program) expectedBody() (string, bool) {
 	if p.payloadForbidden() {
 		return "", true
 	}
-	if len(sh.CForm) > 0 || len(sh.RForm) > 0 || sh.BodyKind == "multipart" {
+	if sh.BodyKind == "multipart" {
 		return "", false
+	}
+	if len(sh.CForm) > 0 || len(sh.RForm) > 0 || len(sh.Ordered) > 0 {
+		// url-encoded form: the ordered pairs in the caller's order, then every plain value
+		// (request level first, then client level, keys sorted as url.Values.Encode does)
+		v := toValues(sh.RForm)
+		for _, e := range sh.CForm {
+			for _, x := range e.Vs {
+				v.Add(e.K, x)
+			}
+		}
+		var parts []string
+		for _, e := range sh.Ordered {
+			parts = append(parts, url.QueryEscape(e[0])+"="+url.QueryEscape(e[1]))
+		}
+		if enc := v.Encode(); enc != "" {
+			parts = append(parts, enc)
+		}
+		return strings.Join(parts, "&"), true
 	}
 	switch sh.BodyKind {
 	case "none":
@@ -869,4 +905,22 @@ func (c *scriptCtx) end(err error) {
 		c.err = err
 		close(c.done)
 	}
+}
+
+func (sh *shape) path() string {
+	if sh.Path == "" {
+		return "/p/a"
+	}
+	return sh.Path
+}
+
+// expectedPath: every {name} replaced by the request-level value, else the client-level one.
+func (sh *shape) expectedPath() string {
+	t := sh.path()
+	for _, ps := range [][][2]string{sh.RPParams, sh.CPParams} {
+		for _, e := range ps {
+			t = strings.ReplaceAll(t, "{"+e[0]+"}", e[1])
+		}
+	}
+	return t
 }
